@@ -42,7 +42,7 @@ type c17Case struct {
 }
 
 var c17PushVars = []string{"plain", "pkce-oidc", "with-request_uri", "badsecret", "auth-mismatch", "public-P"}
-var c17Extras = []string{"none", "redirect_uri", "scope", "state", "response_type", "response_mode", "audience", "code_challenge", "nonce", "new-key"}
+var c17Extras = []string{"none", "redirect_uri", "scope", "state", "response_type", "response_mode", "audience", "code_challenge", "nonce", "new-key", "fault-delete"}
 
 const c17L = 300 // PAR context lifetime (server default 5 min)
 
@@ -208,7 +208,17 @@ func c17Run(c c17Case, res *WRes) (outcomes []string) {
 				q.Set("login_hint", "attacker")
 			}
 			logStart := len(w.Store.Log)
+			if op.Extra == "fault-delete" {
+				// the store fails to delete the pushed request during this one authorization
+				w.Store.Before = func(call *Call) error {
+					if call.Name == "DeletePARSession" {
+						return fmt.Errorf("storage: connection reset")
+					}
+					return nil
+				}
+			}
 			o := w.Authorize(q, AuthzOpts{})
+			w.Store.Before = nil
 			res.Trans++
 			code := o.Param("code")
 			now := w.Now()
